@@ -58,6 +58,11 @@ CHECKS = {
    note=TB + "scikit-learn's check_array/check_X_y are external: their contract for the option sets used is an explicit model (skCheckArray) compared with the real validator on every descriptor of the run. 'Non-numeric' means text entries; arbitrary Python objects are outside the grammar.",
    technique="Lean 4 proof (exact accept/reject characterisation + decide on source-generated method table) + grammar-driven differential tests",
    ref="§6 C06"),
+ 'C08': dict(
+   text="Theorems for every base solver (an arbitrary function), every oracle, every n: the supervised fit factors as base ∘ form; because generated constraints never mention an unlabeled point (C07), the pairs+labels (ITML/MMC/SDML), the quadruplets (LSML) and any index tuples over labelled points (chunks, k-NN triplets) are formed identically from X and from any X' that agrees with X on the labelled rows — so the learned model is a function of the labelled points and their constraints alone; default n_constraints = 20·classes² and the per-estimator wiring (generator and arguments). Tie: the real supervised fit is compared with the real base algorithm fitted on constraints the harness derives through the Constraints helper with the same seed and the wiring the Lean model prescribes (6 estimators, label vectors with −1 at arbitrary positions), and the feature rows of unlabeled points are perturbed (metric must not change).",
+   note=TB + "The base solver is not modelled here (C09–C15 do that); SCML_Supervised's perturbation relation is applied with basis='triplet_diffs' because the 'lda' basis is built from all rows by design.",
+   technique="Lean 4 proof (factorisation + independence from unlabeled rows, building on the C07 theorems) + impl-vs-impl differential check driven by the model's wiring",
+   ref="§6 C08"),
 }
 
 NOT_YET = {}
